@@ -18,8 +18,9 @@ def gen_histories(ctx):
         for h in M.merges(M.conversation([(1, nreq, nresp)])):
             cases.append(h)
     # two connections sharing the matcher
-    two = [((1, 1, 1), (2, 1, 1)), ((1, 2, 1), (2, 1, 2))] if quick else \
-        [((1, 1, 1), (2, 1, 1)), ((1, 2, 1), (2, 1, 2)), ((1, 2, 2), (2, 2, 2))]
+    # connections 2/3 share the client address, 2/4 the client port (see vh-match newWorld)
+    two = [((2, 1, 1), (3, 1, 1)), ((2, 2, 1), (4, 1, 2))] if quick else \
+        [((2, 1, 1), (3, 1, 1)), ((2, 2, 1), (4, 1, 2)), ((2, 2, 2), (3, 2, 2)), ((1, 1, 1), (2, 1, 1))]
     for spec in two:
         ms = list(M.merges(M.conversation(list(spec))))
         if len(ms) > 1000:
@@ -27,7 +28,7 @@ def gen_histories(ctx):
         cases += ms
     # long sampled histories, several connections
     for _ in range(40 if quick else 600):
-        spec = [(c, ctx.rng.randint(0, 6), ctx.rng.randint(0, 6)) for c in range(1, ctx.rng.randint(2, 4))]
+        spec = [(c, ctx.rng.randint(0, 6), ctx.rng.randint(0, 6)) for c in ctx.rng.sample([1, 2, 3, 4], ctx.rng.randint(1, 3))]
         seqs = M.conversation(spec)
         h = []
         seqs = [list(s) for s in seqs if s]
